@@ -197,7 +197,7 @@ fn main() {
       schedules.push((1, p, w));
     }
   }
-  let reps = ctx.n(2, 12);
+  let reps = ctx.n(2, 40);
   let total = schedules.len() as u64 * reps;
   let scheds = schedules.clone();
   ctx.run_cases("directed", total, |rng: &mut Rng, l: &mut Local, scratch| {
@@ -408,7 +408,7 @@ fn main() {
     let _ = std::fs::remove_dir_all(&dir);
   });
   // ---- stress ---------------------------------------------------------------------------
-  let stress_runs = ctx.n(6, 60);
+  let stress_runs = ctx.n(6, 300);
   ctx.run_cases("stress", stress_runs, |rng: &mut Rng, l: &mut Local, scratch| {
     let in_mem = rng.chance(0.25);
     let dir = scratch.join("idx");
